@@ -460,6 +460,10 @@ def attribute(case, message, bucket):
 # plan / shards
 
 
+# coverage-guided stage (atheris drives these Hypothesis shards, see vf/run.py): {tier: {shard kind: (shards, executions)}}
+CG = {'thorough': {'hyp': (4, 20000)}}
+
+
 def plan(tier, seed, scale=1.0):
     b = BOUNDS[tier]
     specs = []
